@@ -32,7 +32,9 @@
 //   - when the injected fault does not make the op fail (a rejected GET/DELETE that helm tolerates)
 //     the execution is trivial: counted, not judged (ledger invariants are C01's business);
 //   - a failure before the op created its revision record: only "nothing deployed was lost" is checked;
-//   - charts here never use the keep policy (C02 covers it); hooks carry before-hook-creation
+//   - resources with helm.sh/resource-policy: keep that survive the atomic rollback's prune step or the
+//     atomic install's uninstall (documented helm behaviour, judged by C02) - but cleanup-on-fail still
+//     has to delete a keep-annotated resource that the failed upgrade newly created; hooks carry before-hook-creation
 //     (explicitly or by default) so that leftover hook objects never collide.
 package c03
 
@@ -81,7 +83,7 @@ func init() {
 	core.Register(&core.Prop{
 		ID:    "C03",
 		Level: "fault_enumeration",
-		Rule: "histories of length 1-4 (7 hand-written + seeded random ones over a 4-version chart family with hooks; prefix ops may carry one scripted failure) on memory/secrets(/configmaps) storage; the last op (install|upgrade|rollback) is run for every combination of atomic x cleanup-on-fail x no-hooks (x replace for install; rollback: cleanup x no-hooks) and, per combination, once per single fault: every cluster request of its fault-free trace answered 500 once, every wait call failing, every hook readiness failing. " +
+		Rule: "histories of length 1-4 (9 hand-written + seeded random ones over a 4-version chart family with hooks; prefix ops may carry one scripted failure) on memory/secrets(/configmaps) storage; the last op (install|upgrade|rollback) is run for every combination of atomic x cleanup-on-fail x no-hooks (x replace for install; rollback: cleanup x no-hooks) and, per combination, once per single fault: every cluster request of its fault-free trace answered 500 once, every wait call failing, every hook readiness failing. " +
 			"distinct_nontrivial counts distinct (driver, op+flags, fault category, outcome, ledger shape after) tuples among executions in which the fault fired and the op failed.",
 		Assumptions: []string{
 			"the simulated API server (sim) applies requests like a real API server (CRUD, strategic/merge patch, 404/409)",
@@ -151,15 +153,18 @@ func directedFamily() gen.Family {
 	hC := gen.HookSpec{Name: "hook-c", Kind: "Pod", Events: []string{"post-upgrade", "post-rollback"}, Weight: "-1", Policies: []string{"before-hook-creation", "hook-failed"}}
 	v3 := vs([]int{0, 1, 5, 6}, "c3", hA, hB)
 	v3.Content[6] = "c0" // the Widget is rendered exactly as in v0
+	v4 := vs([]int{0, 1, 2, 5, 6}, "c1", hB, hC)
+	v4.Keep[2] = true // adds a Secret annotated helm.sh/resource-policy: keep
 	return gen.Family{Name: "fam", Versions: []gen.VersionSpec{
 		vs([]int{0, 1, 5, 6}, "c0", hA),
 		vs([]int{0, 2, 5, 6}, "c1", hB, hC),
 		vs([]int{0, 3}, "c2", hB),
 		v3,
+		v4,
 	}}
 }
 
-var directedNames = []string{"fresh-install", "replace-install", "grow-shrink-upgrade", "rollback-with-hooks", "never-deployed-superseded", "drifted-custom-resource", "nothing-deployed-after-failed-rollback"}
+var directedNames = []string{"fresh-install", "replace-install", "grow-shrink-upgrade", "rollback-with-hooks", "never-deployed-superseded", "drifted-custom-resource", "nothing-deployed-after-failed-rollback", "upgrade-after-failed-install", "upgrade-adds-kept-resource"}
 
 func mkSetup(d caseData) setup {
 	var s setup
@@ -188,6 +193,16 @@ func mkSetup(d caseData) setup {
 			// revision is marked deployed, yet revision 2 is the most recent one that had been deployed
 			s.prefix = []hop{in, {Op: env.Op{Kind: "upgrade", Chart: 1}}, {Op: env.Op{Kind: "rollback", ToRev: 1}, Fail: "create"}}
 			s.target = env.Op{Kind: "upgrade", Chart: 2}
+		case "upgrade-after-failed-install":
+			// 1 failed: no revision ever was deployed, so --atomic finds nothing to roll back to; what
+			// the upgrade newly creates must still be cleaned up with cleanup-on-fail
+			s.prefix = []hop{{Op: env.Op{Kind: "install", Chart: 0}, Fail: "wait"}}
+			s.target = env.Op{Kind: "upgrade", Chart: 1}
+		case "upgrade-adds-kept-resource":
+			// the new chart adds a resource with the keep policy: the atomic rollback leaves it alone,
+			// cleanup-on-fail deletes it (it is newly created by this upgrade)
+			s.prefix = []hop{in}
+			s.target = env.Op{Kind: "upgrade", Chart: 4}
 		case "drifted-custom-resource":
 			// 2 failed at wait: the cluster (incl. the Widget) is at v1; the target renders the Widget as
 			// revision 1 does, so neither the upgrade nor the atomic rollback sees a manifest difference
@@ -199,7 +214,7 @@ func mkSetup(d caseData) setup {
 		s.desc = "directed:" + d.Directed
 	} else {
 		rng := rand.New(rand.NewSource(d.HSeed))
-		s.fam = gen.NewFamily(rng, gen.FamilyOpts{Versions: 4, MaxSlots: 7})
+		s.fam = gen.NewFamily(rng, gen.FamilyOpts{Versions: 4, MaxSlots: 7, Keep: true})
 		addHooks(rng, &s.fam)
 		vals := func() map[string]any {
 			if rng.Intn(3) == 0 {
@@ -245,7 +260,11 @@ func mkSetup(d caseData) setup {
 			}
 			s.target = env.Op{Kind: "install", Chart: rng.Intn(4), Vals: vals()}
 		case x < 75: // upgrade
-			s.prefix = append(s.prefix, install())
+			first := install()
+			if rng.Intn(6) == 0 {
+				first.Fail = []string{"wait", "create"}[rng.Intn(2)] // upgrade over a failed install
+			}
+			s.prefix = append(s.prefix, first)
 			for i, n := 0, rng.Intn(3); i < n; i++ {
 				s.prefix = append(s.prefix, middle(&revs))
 			}
@@ -532,6 +551,12 @@ func judgeFailure(res *core.Result, w *env.World, o observation, cat string, det
 					continue
 				}
 				res.Stat("cleanup_created_resources_checked", 1)
+				if d.HasPolicy {
+					res.Stat("cleanup_created_resources_checked:keep-annotated", 1)
+				}
+				if op.Atomic && len(o.ever) == 0 {
+					res.Stat("cleanup_created_resources_checked:atomic-without-restorable-revision", 1)
+				}
 				if w.Sim.Get(d.Key) != nil {
 					res.Add("cleanup-left-created-resource", class, "%s was first created by this upgrade (POST 201, absent before) and still exists after the failed upgrade with cleanup-on-fail | %s", d, detail())
 				}
@@ -573,6 +598,10 @@ func judgeFailure(res *core.Result, w *env.World, o observation, cat string, det
 		for _, d := range failedDocs {
 			if d.Key == "" {
 				continue
+			}
+			if kept(d, w.Sim.Get(d.Key)) {
+				res.Stat("kept_resources_exempted", 1)
+				continue // documented: resources with the keep policy are left alone by uninstall
 			}
 			res.Stat("atomic_install_resources_checked", 1)
 			if w.Sim.Get(d.Key) != nil {
@@ -668,6 +697,10 @@ func judgeFailure(res *core.Result, w *env.World, o observation, cat string, det
 			if _, ok := goodKeys[k]; ok {
 				continue
 			}
+			if kept(d, w.Sim.Get(k)) {
+				res.Stat("kept_resources_exempted", 1)
+				continue // documented: the update's prune step never deletes objects with the keep policy (C02); newly created ones are judged by the cleanup clause
+			}
 			res.Stat("atomic_leftovers_checked", 1)
 			if w.Sim.Get(k) != nil {
 				res.Add("atomic-upgrade-leftover", class, "%s is named only by the failed manifest and still exists after the atomic rollback | %s", d, detail())
@@ -684,6 +717,19 @@ func judgeFailure(res *core.Result, w *env.World, o observation, cat string, det
 		keepsDeployed()
 	}
 	cleanupCheck(nil)
+}
+
+// kept reports whether the manifest document or the live object carries helm.sh/resource-policy: keep.
+func kept(d ref.Doc, live map[string]any) bool {
+	if d.HasPolicy && strings.TrimSpace(d.Policy) == "keep" {
+		return true
+	}
+	if live != nil {
+		if v, ok := ref.LiveAnnotation(live, ref.PolicyAnno); ok && strings.TrimSpace(v) == "keep" {
+			return true
+		}
+	}
+	return false
 }
 
 func keysOf(m map[int]bool) []int {
@@ -842,7 +888,7 @@ func run(c core.Case, verbose bool) core.Result {
 
 func post(a *core.Agg) string {
 	var miss []string
-	for _, k := range []string{"failed_ops_judged", "created_revisions_checked", "deployed_kept_checked", "atomic_restorations_compared", "atomic_restored_objects_compared", "atomic_installs_checked", "cleanup_created_resources_checked", "faults_fired:wait", "faults_fired:hook-ready", "faults_fired:hook-create", "faults_fired:resource-create", "faults_fired:resource-patch"} {
+	for _, k := range []string{"failed_ops_judged", "created_revisions_checked", "deployed_kept_checked", "atomic_restorations_compared", "atomic_restored_objects_compared", "atomic_installs_checked", "cleanup_created_resources_checked", "cleanup_created_resources_checked:keep-annotated", "cleanup_created_resources_checked:atomic-without-restorable-revision", "faults_fired:wait", "faults_fired:hook-ready", "faults_fired:hook-create", "faults_fired:resource-create", "faults_fired:resource-patch"} {
 		if a.Stats[k] == 0 {
 			miss = append(miss, k)
 		}
